@@ -16,7 +16,7 @@ func init() {
 	register(&Property{
 		ID:      "C08",
 		Run:     runC08,
-		Explain: "(1) default string-to-key parameters, protocol-key sizes and seed lengths of the six etypes (folded from SSA) against RFC 3962 §4, RFC 8009 §4–5, RFC 3961 §6.3, RFC 4757, and the RFC 8009 salt-prefix strings; (2) every key the library generates is sized by GetKeyByteSize() of the etype whose id it is stamped with, filled by crypto/rand, and each family's EncryptData accepts exactly GetKeyByteSize() bytes (generator/consumer table agreement, evaluated per etype); (3) PA-data precedence is order-independent: in the loops of crypto.GetKeyFromPassword and client.preAuthEType an update made for a lower-precedence PA type cannot overwrite one made for a higher-precedence type in an earlier iteration — it is guarded by a loop-carried variable that the higher-precedence case assigns, or the higher case leaves the loop; (4) salt defaulting and s2kparams length test. The key values themselves are not computed.",
+		Explain: "(1) default string-to-key parameters, protocol-key sizes and seed lengths of the six etypes (folded from SSA) against RFC 3962 §4, RFC 8009 §4–5, RFC 3961 §6.3, RFC 4757, and the RFC 8009 salt-prefix strings; (2) every key the library generates is sized by GetKeyByteSize() of the etype whose id it is stamped with, filled by crypto/rand, and each family's EncryptData accepts exactly GetKeyByteSize() bytes (generator/consumer table agreement, evaluated per etype); (3) PA-data precedence is order-independent: in the loops of crypto.GetKeyFromPassword and client.preAuthEType an update made for a lower-precedence PA type cannot overwrite one made for a higher-precedence type in an earlier iteration — it is guarded by a loop-carried variable that the higher-precedence case assigns, or the higher case leaves the loop; (4) salt defaulting and s2kparams length test. The key values themselves are not computed. Added: the crypto packages keep no package-level state (or only a memo table whose key carries every parameter itself): results do not depend on earlier calls.",
 		NotDecided: []string{
 			"n-fold, DK, KDF-HMAC-SHA2, PBKDF2 iteration handling, DES parity and weak keys (numerical)",
 			"RC4 UTF-16LE conversion of non-ASCII passwords: the only structural proxy is a frozen implementation choice",
